@@ -68,6 +68,8 @@ class QuicStreamReceiver:
             elif frame.fin and frame_end != self._final_size:
                 raise FinalSizeError("Cannot change final size")
         if frame.fin:
+            if frame_end < self.highest_offset:
+                raise FinalSizeError("Final size is below the data already received")
             self._final_size = frame_end
         if frame_end > self.highest_offset:
             self.highest_offset = frame_end
@@ -123,6 +125,8 @@ class QuicStreamReceiver:
 
         # we are done receiving
         self._final_size = final_size
+        if final_size > self.highest_offset:
+            self.highest_offset = final_size
         self.is_finished = True
         return events.StreamReset(error_code=error_code, stream_id=self._stream_id)
 
